@@ -323,7 +323,7 @@ class Message(MessageBase):  # add _expired attr
             age = self._gwy._dt_now() - self.dtm - _TD_SECS_003
             if not lifespan:  # e.g. a 1F09 with remaining_seconds == 0
                 return self.HAS_EXPIRED if age > td(0) else 0.0
-            return age / lifespan
+            return max(age / lifespan, 0.0)  # never negative: -1 is CANT_EXPIRE
 
         # 1. Look for easy win...
         if self._fraction_expired is not None:
